@@ -241,7 +241,7 @@ def r6_stake_commitment(ctx):
         r.check(sig(e[2][2]) == "StdcodeSerializeExt::stdcode(%s.1)" % el, "value", "value = stdcode(doc)", "value = %s" % sig(e[2][2]), b.where(bi))
     defs = q.var_def_exprs(b, "tree")
     s = [sig(d[1]) for d in defs]
-    r.check(len(s) == 1 and "get_tree(Database::new(" in s[0] and "repeat" in s[0], "empty-tree", "starts from the empty tree", "tree starts as %s" % s)
+    r.check(len(s) == 1 and "get_tree(Database::new(" in s[0] and ("[0; 32]" in s[0] or "default" in s[0].lower().split("get_tree(")[-1]), "empty-tree", "starts from the empty tree", "tree starts as %s" % s)
 
 
 RULES = [r1_header_map, r2_chain_step, r3_network_write_once, r4_key_agreement, r5_tx_commitment, r6_stake_commitment]
